@@ -10,7 +10,7 @@
 //
 // Journal grammar (all integers decimal = the mathematical value of the operand in its type):
 //   cfg type <T> <bits> <signed> <useNeg> <useAdd> <useSub> <useMul> <lbits>
-//   cfg fix <div|subMul|umod|isqrt> <0|1>          repair of KF-C11-1..4 present in this tree (measured on the witness)
+//   cfg fix <div|subMul|umod|isqrt|lcm> <0|1>      repair of KF-C11-1..5 present in this tree (measured on the witness)
 //   cfg policy <P> <check_overflow> <check_inf_add_inf> <check_inf_sub_inf> <check_inf_mul_zero>
 //              <check_div_zero> <check_inf_div_inf> <check_inf_mod> <check_sqrt_neg> <has_nan> <has_infinity>
 //   tab <id> <T> <P> <op> <dir> <to0> <kind>       kind = bin | un | exp | asg8 | asg16 | cmp | sgn | cls
@@ -791,6 +791,8 @@ static void cfg() {
     out(std::string("cfg fix umod ") + (r != V_EQ ? "1" : "0"));
     to = 0x55; run_op<int8_t, Check_Overflow_Policy<int8_t> >(SQRT, to, (int8_t) 64, (int8_t) 0, 0, ROUND_UP);
     out(std::string("cfg fix isqrt ") + (to == 8 ? "1" : "0"));
+    to = 0x55; run_op<int8_t, Check_Overflow_Policy<int8_t> >(LCM, to, (int8_t) 1, (int8_t) -128, 0, ROUND_DOWN);
+    out(std::string("cfg fix lcm ") + (to == 127 ? "1" : "0"));   // repaired: the overflow outcome of |y| is stored (max, V_GT_SUP)
   }
   // result codes and rounding directions as this build sees them (T1 cross-check)
   out(std::string("cfg enum V_LT_INF ") + std::to_string((unsigned) V_LT_INF) + " V_GT_SUP " + std::to_string((unsigned) V_GT_SUP)
